@@ -345,6 +345,10 @@ impl<P: SimPrefix> World<P> {
             }
             Step::Rebuild { m, how, order } => {
                 let i = self.mi(*m);
+                if *how % 5 == 4 {
+                    self.exec_collect_dups(ctx, i, *order)?;
+                    return Ok(StepOut { touched: vec![i] });
+                }
                 self.exec_rebuild(ctx, i, *how, *order)?;
                 Ok(StepOut { touched: vec![i] })
             }
@@ -627,6 +631,51 @@ impl<P: SimPrefix> World<P> {
         let shape_b: Vec<_> = before.nodes.iter().map(|n| (n.raw.key(), n.left, n.right, n.has_value)).collect();
         let shape_a: Vec<_> = after.nodes.iter().map(|n| (n.raw.key(), n.left, n.right, n.has_value)).collect();
         chk!(ctx, "C13", shape_a == shape_b, format!("shape-changed:{what}"), "writes through {what} changed the tree shape");
+        Ok(())
+    }
+
+    /// `collect()` from a sequence in which some networks occur twice (different host bits and
+    /// values): the result must be what inserting the items one after the other gives
+    fn exec_collect_dups(&mut self, ctx: &mut Ctx, i: usize, order: u64) -> R {
+        let before = self.truths[i].ents.clone();
+        let mut rng = Rng::new(order);
+        let mut list: Vec<(Raw, u64)> = before.iter().map(|e| (e.raw, e.v)).collect();
+        rng.shuffle(&mut list);
+        let ndup = if list.is_empty() { 0 } else { rng.range(1, 3) };
+        for j in 0..ndup {
+            let (raw, _) = list[rng.below(list.len() as u64) as usize];
+            let dup = (crate::packs::noisy::<P>(raw.key(), order ^ j), (1u64 << 45) + (order % 1_000_000) * 8 + j);
+            let pos = rng.below(list.len() as u64 + 1) as usize;
+            list.insert(pos, dup);
+        }
+        // sequential insert semantics
+        let mut exp: BTreeMap<Key, (Raw, u64)> = BTreeMap::new();
+        for (raw, v) in &list {
+            exp.insert(raw.key(), (*raw, *v));
+        }
+        let mw = &mut self.maps[i];
+        let old = std::mem::take(&mut mw.real);
+        let new: PrefixMap<P, Val> = ctx.mutate("collect", || {
+            drop(old);
+            list.iter().map(|(r, v)| (P::make(*r), Val::new(*v))).collect()
+        })?;
+        mw.real = new;
+        mw.canonical = true;
+        let t = mw.truth();
+        let got: Vec<(Key, u64)> = t.ents.iter().map(|e| (e.key, e.v)).collect();
+        let want: Vec<(Key, u64)> = exp.iter().map(|(k, x)| (*k, x.1)).collect();
+        chk!(ctx, "C01", got == want, "collect:duplicates", "collect() of {:?} holds {:?}, inserting the items one by one gives {:?}", list, t.ents, exp);
+        chk!(ctx, "C19", got == want, "collect:duplicates", "collect() of {:?} holds {:?}, expected {:?}", list, t.ents, exp);
+        chk!(ctx, "C04", mw.real.len() == t.ents.len(), "len:collect", "collect: len() = {} but {} entries", mw.real.len(), t.ents.len());
+        if got == want {
+            for e in &t.ents {
+                let x = exp[&e.key];
+                chk!(ctx, "C18", e.raw == x.0, "stored-repr:collect", "after collect() entry {} is stored as {} but the last item for that network was {}", e.key, e.raw, x.0);
+            }
+        }
+        mw.model = exp;
+        mw.hw = t.n_reachable;
+        ctx.rare("probe.collect from a sequence with repeated networks");
         Ok(())
     }
 
